@@ -28,8 +28,8 @@ TOL = 1e-9
 def bounds(tier):
     return dict(quick=dict(curves='p<=3 over K(p,2,4)', surfaces="degrees {1,2,3}^2 over K'(p) level 1 + 3 knot structures per direction",
                            nonnormalised='2 affine ranges'),
-                thorough=dict(curves='p<=3 over K(p,3,8) (p=3: K(3,3,4)+K(3,2,8)), p=4,5 over K(p,2,4)',
-                              surfaces="degrees {1,2,3}^2 over K'(p) level 2", nonnormalised='4 affine ranges'))[tier]
+                thorough=dict(curves='p<=3 over K(p,3,8), p=4 over K(4,3,4), p=5 over K(5,2,4)',
+                              surfaces="degrees {1,2,3}^2 over K'(p) level 2 and over K(pu,2,4) x K(pv,1,4)", nonnormalised='4 affine ranges'))[tier]
 
 
 def _more_surfaces(tier, have):
@@ -49,10 +49,34 @@ def _more_surfaces(tier, have):
     return out
 
 
+def _thorough_extras(have):
+    """thorough only: curves over K(3,3,8), K(4,3,4); surfaces over K(pu,2,4) x K(pv,1,4)"""
+    out = []
+    seen = set(str(d) for d in have)
+    todo = []
+    for p, B, G in [(3, 3, 8), (4, 3, 4)]:
+        for kv in A.clamped_kvs(p, B, G):
+            todo.append(([kv], [p]))
+    for pu, pv in itertools.product([1, 2, 3], repeat=2):
+        for ku in A.clamped_kvs(pu, 2, 4):
+            for kv in A.clamped_kvs(pv, 1, 4):
+                if len(ku) - pu != len(kv) - pv:
+                    todo.append(([ku, kv], [pu, pv]))
+    for kvs, degs in todo:
+        for d in K.variants(kvs, degs, 'quick', len(kvs)):
+            if str(d) not in seen:
+                seen.add(str(d))
+                out.append(d)
+    return out
+
+
 def gen_cases(tier, seed):
     cases = []
     base = K.curve_shapes(tier) + K.nonnormalised_shapes(tier) + K.surface_shapes(tier)
-    for d in base + _more_surfaces(tier, base):
+    base = base + _more_surfaces(tier, base)
+    if tier == 'thorough':
+        base = base + _thorough_extras(base)
+    for d in base:
         cases.append(dict(kind='split', shape=d))
         cases.append(dict(kind='decompose', shape=d))
     return cases
